@@ -4,7 +4,7 @@ import Mathlib.Tactic.Positivity
 /-!
 # C02 number lemmas: integrality, `num_bits`, binary and unary slack representation
 -/
-namespace Qv
+namespace Qv.PcboP
 
 /-! ## integrality -/
 
@@ -211,4 +211,4 @@ theorem numBits_cap (lt : Bool) {v : Rat} {m : Nat} (h : (m : Rat) ≤ v) :
   · simp only [numBits, if_true]
     exact lt_of_le_of_lt hc (lt_two_pow_bitLength _)
 
-end Qv
+end Qv.PcboP
